@@ -278,8 +278,9 @@ def run(chk):
                 'string literals of the repo tests, single-token mutations; non-trivial = the parse result has at least one modification '
                 'list / the string has a section character; distinct = distinct protocol line or string')
     if not quick:
-        chk.leanchecker(['PeptVerif.Props.C01', 'PeptVerif.Spec.ProForma', 'PeptVerif.Model.Serialize', 'PeptVerif.Model.Parser',
-                         'PeptVerif.Model.ModText'])
+        chk.leanchecker(['PeptVerif.Props.C01', 'PeptVerif.Lemmas.ParserSurface', 'PeptVerif.Lemmas.ParserChain',
+                         'PeptVerif.Lemmas.ParserMiddle', 'PeptVerif.Lemmas.ParserRoundTrip', 'PeptVerif.Lemmas.ParserTotal',
+                         'PeptVerif.Spec.ProForma', 'PeptVerif.Model.Serialize', 'PeptVerif.Model.Parser', 'PeptVerif.Model.ModText'])
     return chk.finish(classify)
 
 
